@@ -129,9 +129,9 @@ class BtProp(Prop):
     invalid_block = None   # (profile, clauses not judged): extra implementation-only scenarios with INVALID outcomes
     assumptions = ["visitors / handlers do not mutate the tree mid-tick", "user callbacks do not raise",
                    "integer clock (fake time module installed by the harness)",
-                   "leaf outcomes are SUCCESS / FAILURE / RUNNING in the model, the theorems (ValidEnv) and the "
-                   "correspondence; C03 / C04 / C09 add an implementation-only block with leaves returning INVALID, judged "
-                   "by the Python oracle alone"]
+                   "leaf outcomes are SUCCESS / FAILURE / RUNNING in the theorems (ValidEnv); C03 / C04 / C05 / C09 add a "
+                   "block with leaves returning INVALID, on which model and code are compared as well and the oracle "
+                   "judges the clauses that are meaningful for such outcomes"]
 
     def profile_for(self, rng):
         x = rng.random()
@@ -157,13 +157,14 @@ class BtProp(Prop):
         if tier == "thorough" and self.exhaustive:
             out += exhaustive_block(self.pid)
         if self.invalid_block is not None and tier != "search":
-            # OUTSIDE THE MODEL (and outside the theorems' ValidEnv): leaves whose update() returns INVALID. The code's
-            # behaviour there is judged by the Python oracle alone, for the clauses that are meaningful for it.
+            # OUTSIDE THE THEOREMS' ValidEnv: leaves whose update() returns INVALID. The model follows the code there too
+            # (Decorator.stop(INVALID) stops the child unconditionally), so these scenarios take part in the
+            # correspondence; the oracle judges the clauses that are meaningful for such outcomes.
             profn, skip = self.invalid_block
             prof = bt_gen.Profile(**dict(vars(bt_gen.PROFILES[profn]), w_outcome={"R": 35, "S": 30, "F": 20, "I": 15}))
             for i in range(max(200, n // 10)):
                 sc = bt_gen.gen_scenario(rng, prof, "%s_%s_inv_%d" % (self.pid, tier[0], i))
-                sc.meta["impl_only"] = True
+                sc.meta["invalid_outcomes"] = True
                 sc.meta["skip_clauses"] = list(skip)
                 out.append(sc)
         return out
@@ -955,7 +956,7 @@ class C09(BtProp):
 
     def oracle(self, s, lines):
         out = BtProp.oracle(self, s, lines)
-        if not s.meta.get("impl_only"):
+        if not (s.meta.get("invalid_outcomes") or s.meta.get("impl_only")):
             # "every decorator's status is the documented function of its child's status" also for the decorators with
             # memory (Retry, Repeat, Condition, Timeout, EternalGuard, OneShot): the reference of C10 is reused
             from props import get
